@@ -62,13 +62,17 @@ def parse_spec_file(path):
                 fnspecs.append(cur)
             elif toks[0] == 'fn':
                 props = []
+                sem = None
                 for t in toks[2:]:
                     if t.startswith('props='):
                         props = [p for p in t[6:].split(',') if p]
+                    if t.startswith('sem='):
+                        sem = [p for p in t[4:].split(',') if p]
                 cur = FnSpec(toks[1], props)
+                cur.sem = sem if sem is not None else props
                 cur.src = '%s:%d' % (os.path.basename(path), ln)
                 for t in toks[2:]:
-                    if not t.startswith('props='):
+                    if not t.startswith('props=') and not t.startswith('sem='):
                         cur.flags.add(t)
                 fnspecs.append(cur)
             elif toks[0] == 'module_extra':
@@ -233,7 +237,7 @@ def inject(src, fnspecs, fname, warnings):
             edits.append((f.item_start, f.body_close + 1, inj('/* dropped: %s */' % tag)))
             continue
         # markers for classification
-        edits.append((f.body_open + 1, f.body_open + 1, inj('/*@FN %s props=%s@*/' % (tag, ','.join(sp.props)))))
+        edits.append((f.body_open + 1, f.body_open + 1, inj('/*@FN %s props=%s sem=%s@*/' % (tag, ','.join(sp.props), ','.join(sp.sem)))))
         edits.append((f.body_close, f.body_close, inj('/*@ENDFN %s@*/' % tag)))
         if 'external_body' in sp.flags:
             edits.append((f.item_start, f.item_start, inj('#[verifier::external_body] ')))
